@@ -379,6 +379,23 @@ pub fn main(ctx: &Ctx) -> ! {
         }
         acc.outcomes.lock().unwrap().extend(local);
     });
+    // every character U+0001..U+00FF (no CR) and some from the other planes, alone and next to each special
+    let mut singles: Vec<char> = (1u32..=0xFF).filter(|c| *c != 0x0D).filter_map(char::from_u32).collect();
+    singles.extend(['\u{100}', '\u{7ff}', '\u{800}', '\u{c2a0}', '\u{2028}', '\u{feff}', '\u{fffd}', '\u{ffff}', '\u{10000}', '\u{10ffff}']);
+    singles.par_iter().for_each(|&c| {
+        let mut local = BTreeSet::new();
+        for sp in ["", "&", "<", ">", "\"", "'", "\u{a0}", "a"] {
+            for s in [format!("{c}{sp}"), format!("{sp}{c}"), format!("{c}{sp}{c}")] {
+                if s.is_empty() {
+                    continue;
+                }
+                roundtrip(ctx, &acc, &shp[1], &s, "", &mut local);
+                roundtrip(ctx, &acc, &shp[2], &s, "", &mut local);
+                roundtrip(ctx, &acc, &shp[3], &s, &s, &mut local);
+            }
+        }
+        acc.outcomes.lock().unwrap().extend(local);
+    });
     // (b) inner == outer, outer == spec serialization, over parsed trees
     let sig = crate::e2::sigma_full();
     let mut corpus: Vec<String> = vec![];
